@@ -52,7 +52,7 @@ Next == ph = "call" /\ ph' = "ret" /\ res' = Eval(call) /\ UNCHANGED call
 Spec == Init /\ [][Next]_vars
 Emit == ph = "ret" => PrintT(<<"CASE", ToJson([fam |-> "srt", kind |-> call.kind, seed |-> call.seed, j |-> call.j,
                                                 huge |-> IF call.kind = "srt3" THEN call.j ELSE 0,
-                                                dk |-> IF call.kind = "srt2" THEN call.dk ELSE 0, exp |-> res])>>)
+                                                dk |-> call.dk, exp |-> res])>>)
 
 \* the composed linear part has determinant product(s) and orthogonal columns of the given lengths
 SrtTheorems ==
